@@ -344,16 +344,33 @@ fn random_part(ctx: &Ctx, job: usize, iters: u64) -> Stats {
         let sb = pick_support(&mut rng);
         let sc = pick_support(&mut rng);
         let n = uni.len() as u32;
+        // (an operand is built from its support through the engine's own operations: if it then tests
+        // a variable outside its universe, the engine has gone wrong — a violation, not a harness error)
+        let foreign = std::cell::RefCell::new(None::<String>);
         let mk = |rng: &mut Rng, s: &[usize]| {
             let d = random_operand(rng, &env, &uni, s);
-            let t = tt_of_bdd(&d, n, &idx_of(&uni)).expect("operand over its own universe");
+            let t = match tt_of_bdd(&d, n, &idx_of(&uni)) {
+                Ok(t) => t,
+                Err(e) => {
+                    *foreign.borrow_mut() = Some(format!("an operand built over the variables {:?} is {}: {}", s, short(&d), e));
+                    Tt::constant(n, false)
+                }
+            };
             let snap = deep_copy(&d);
             (d, snap, t)
         };
         let a = mk(&mut rng, &sa);
         let b = mk(&mut rng, &sb);
+        if let Some(m) = foreign.borrow_mut().take() {
+            st.violate("c03.pointwise", "C03:operand-with-a-foreign-variable".into(), m, json!({"kind": "random", "seed": ctx.seed, "job": job}));
+            continue;
+        }
         if rng.chance(1, 4) {
             let c = mk(&mut rng, &sc);
+            if let Some(m) = foreign.borrow_mut().take() {
+                st.violate("c03.pointwise", "C03:operand-with-a-foreign-variable".into(), m, json!({"kind": "random", "seed": ctx.seed, "job": job}));
+                continue;
+            }
             check_ite(&mut st, &env, &a, &b, &c, &uni, "random");
         } else {
             let op = *rng.pick(&BIN_OPS);
